@@ -111,6 +111,20 @@ def replay(recs):
                         report(site + "/collection", alll[i], {**case0, "p": allq[i].tolist(), "polygon": st}, bool(alle[i]), bool(got[i]))
             except Exception as ex:  # noqa: BLE001
                 report(site + "/collection", st, case0, "booleans", f"raised {type(ex).__name__}: {ex}")
+            # the polygon has answered by now; moved by an exact isometry it must answer for its new position
+            if cname in ("Polygon", "Rectangle"):
+                from ..moved import motions, warm
+                for mname, mv, T, Ti in motions(dim):
+                    try:
+                        Pm = mv(warm(P))
+                        qm = (np.asarray(T) @ allq.T).T
+                        gotm = np.asarray(Pm.contains(g.PointCollection(qm)))
+                        bad = np.flatnonzero(gotm != alle) if gotm.shape == alle.shape else [0]
+                        for i in list(bad)[:1]:
+                            report(site + f"/queried-then-moved/{mname}", alll[i], {**case0, "p": allq[i].tolist(), "polygon": st, "moved by": mname},
+                                   bool(alle[i]), bool(gotm[i]) if gotm.shape == alle.shape else {"shape": list(gotm.shape)})
+                    except Exception as ex:  # noqa: BLE001
+                        report(site + f"/queried-then-moved/{mname}", st, case0, "booleans", f"raised {type(ex).__name__}: {ex}")
             seen = set()
             for i in range(len(allq)):
                 if (i * 7 + len(poly)) % 3 and alll[i] in ("interior", "exterior"):
